@@ -662,7 +662,9 @@ def gen_sandwich(rng, tkey=None, inner=None):
     for c in pattern:
         step = {'op': 'add', 'lf': 0, 'type': tkey, 'name': nm, 'set_name': sn, 'origin': None, 'kw': {}}
         if c == 'R':
-            if bad is None:
+            if bad == 'origin_type':
+                step['origin'] = rng.choice([R.r_list([R.r_int(1)]), R.r_str('one'), R.r_float(specgen.f_bits(1.5))])   # rejected BEFORE anything else of the item exists
+            elif bad is None:
                 step['name'] = R.r_int(3)
             else:
                 step['kw'] = copy.deepcopy(bad)
